@@ -392,7 +392,7 @@ def gen_braket_groups(rng, pool, n_ops, allow_no, no_general):
 
 
 def gen_wicks_case(rng, pool, n_ops, allow_no=True, no_general=False,
-                   free_general=False, label=""):
+                   free_general=False, label="", p_contract=0.6):
     """random product.  Operator indices are either contracted with a tensor
     or free; free general indices only if `free_general`; general indices
     inside NO groups only if `no_general`."""
@@ -436,7 +436,7 @@ def gen_wicks_case(rng, pool, n_ops, allow_no=True, no_general=False,
             contracted.append(ix)
         elif ix.space == "general" and not free_general:
             contracted.append(ix)
-        elif rng.random() < 0.6:
+        elif rng.random() < p_contract:
             contracted.append(ix)
         else:
             free.append(ix)
@@ -466,5 +466,10 @@ def gen_wicks_case(rng, pool, n_ops, allow_no=True, no_general=False,
                 tensors.append(AntiSymmetricTensor(
                     "V", (grp[0], grp[1]), (grp[2], grp[3]),
                     rng.choice([0, 1])))
+    # a delta between two contracted indices in the commuting part
+    if len(contracted) >= 2 and rng.random() < 0.2:
+        x, y = rng.sample(contracted, 2)
+        if x.space == y.space or "general" in (x.space, y.space):
+            tensors.append(KroneckerDelta(x, y))
     coef = S(rng.choice([1, -1, 2, 3])) / rng.choice([1, 2, 4])
     return WicksCase(coef, tensors, groups, label), contracted, free
